@@ -268,6 +268,21 @@ def gen_methods(r, n):
                     t = t.replace("{" + tm["key"], "{" + r.choice(keys), 1)
                 keys.append(G.parse_template(t)["key"])
                 params.append((field, t))
+            # an earlier parameter listed again, verbatim, after the others (A,B,A / A,B,B,A / A,A): last one wins
+            if r.random() < 0.35:
+                a = params[0]
+                if len(params) >= 2 and a[1] is not None:      # make the parameter in between share A's field and key
+                    tm = G.parse_template(a[1])
+                    b = G.gen_class_template(r, allow_short=False)
+                    b = b.replace("{" + G.parse_template(b)["key"], "{" + tm["key"], 1)
+                    params[1] = (a[0], b)
+                shape = r.choice(["ABA", "ABBA", "AA"])
+                if shape == "AA" or len(params) < 2:
+                    params = [a] + params if r.random() < 0.5 else params + [a]
+                elif shape == "ABA":
+                    params = params + [a]
+                else:
+                    params = [params[0], params[1], params[1]] + params[2:] + [a]
             out.append({"name": name, "kind": "explicit", "params": params, "http": ("post", f"/v1/m{j}:route"), "body": "*"})
         elif x < 0.9:
             vars_ = r.sample(FIELD_PATHS, r.choice([1, 1, 2, 3]))
@@ -831,6 +846,9 @@ def corpus_methods():
          "requests": [{"parent": "shelves/s1"}]},
         {"name": "RouteL", "kind": "explicit", "params": [("table_name", "{routing_id=projects/*}/**"), ("app_profile_id", None)],
          "http": ("post", "/v1/l:list"), "body": "*", "paged": True, "requests": [{"table_name": "projects/p1/tables/t", "app_profile_id": "a b"}]},
+        {"name": "RouteM", "kind": "explicit", "params": [("table_name", "{routing_id=projects/*}/**"), ("table_name", "{routing_id=projects/*/instances/*}/**"),
+                                                          ("table_name", "{routing_id=projects/*}/**")],
+         "http": ("post", "/v1/m:relisted"), "body": "*", "requests": [{"table_name": "projects/p1/instances/i1/tables/t1"}, {"table_name": "projects/p1"}]},
         {"name": "RouteI", "kind": "implicit", "params": [], "http": ("custom", "/v1/{name=things/*}"), "body": None, "vars": ["name"]},
         {"name": "RouteJ", "kind": "implicit", "params": [], "http": ("custom", "/v1/{sub.name=shelves/*}/x/{sub.class}"), "body": None,
          "vars": ["sub.name", "sub.class"], "custom_kind": "OPTIONS"},
